@@ -18,7 +18,7 @@ RULE = (
     "pairs (Segment in L/H/S/PL/G/K, HalfLine in L/H/PL, Line in PL, ConvexPolygon in PL/K) built as sub-objects, "
     "partial overlaps, parallel-displaced and crossing objects. Oracle: exact H-representation membership of all "
     "defining points (plus direction conditions for unbounded candidates); the truth value of `x in S` must equal "
-    "it. non-trivial = candidate on the container's carrier or within distance 1 of its boundary; distinct = "
+    "it. non-trivial = candidate on the container's carrier or within distance 1 of its boundary; each case also draws int/float coordinates and constructor forms; distinct = "
     "distinct (container, candidate)."
 )
 ASSUMPTIONS = [
@@ -32,7 +32,8 @@ OFFS = (F(1, 512), F(1, 64), F(1, 8), F(1, 2))
 
 def check(case, ctx):
     G = lib()
-    S, x, tag = case
+    S, x, tag = case[0], case[1], case[2]
+    var = case[3] if len(case) > 3 else B.DEFAULT_VAR
     want = X.subset(x, S)
     near = tag.startswith("near") or tag in ("on", "V", "E", "E+", "F", "F+", "sub", "partial", "touch")
     cls = "%s in %s/%s:%s" % (x[0], S[0], tag, want)
@@ -40,7 +41,7 @@ def check(case, ctx):
     if near or want:
         ctx.nontrivial(case)
     ctx.sample(cls, case, want)
-    oS, ox = B.build(S), B.build(x)
+    oS, ox = B.build_var(S, x, var)
     s, v = B.call(lambda: ox in oS)
     facts = {"pair": "%s in %s" % (x[0], S[0]), "tag": tag, "expected": want}
     if s == "raise":
@@ -50,7 +51,7 @@ def check(case, ctx):
 
 
 def admit(case, fail):
-    S, x, tag = case
+    S, x = case[0], case[1]
     m = A.pair_margin(S, x)
     H = X.hrep(S)
     pts = A.features(x)[0]
@@ -208,31 +209,31 @@ def strata(tier):
     n = 150 if q else 5000
     for kS in ("L", "H", "S", "PL"):
         for rec in ("on", "off", "free", "near"):
-            out.append(Stratum("P in %s/%s" % (kS, rec), "hyp", flat_container_point(kS, rec), n))
+            out.append(Stratum("P in %s/%s" % (kS, rec), "hyp", gen.with_variant(flat_container_point(kS, rec)), n))
     for kS in ("H", "S"):
-        out.append(Stratum("P in %s/near-end" % kS, "hyp", flat_container_point(kS, "near-end"), n))
+        out.append(Stratum("P in %s/near-end" % kS, "hyp", gen.with_variant(flat_container_point(kS, "near-end")), n))
     n = 70 if q else 2500
     for kS in ("G", "K"):
         for ft in ("V", "E", "E+", "F", "F+", "I", "X", "near-F", "near-E", "near-V"):
-            out.append(Stratum("P in %s/%s" % (kS, ft), "hyp", body_container_point(kS, ft), n))
+            out.append(Stratum("P in %s/%s" % (kS, ft), "hyp", gen.with_variant(body_container_point(kS, ft)), n))
     n = 80 if q else 2500
     for kx, kS in COMPOSITE_FLAT:
         for rec in gen.flat_recipes(kS, kx):
-            out.append(Stratum("%s in %s/%s" % (kx, kS, rec), "hyp", flat_composite(kx, kS, rec), n))
+            out.append(Stratum("%s in %s/%s" % (kx, kS, rec), "hyp", gen.with_variant(flat_composite(kx, kS, rec)), n))
     for kS in ("L", "H", "S", "PL"):
-        out.append(Stratum("S in %s/sub" % kS, "hyp", sub_segment(kS), n))
+        out.append(Stratum("S in %s/sub" % kS, "hyp", gen.with_variant(sub_segment(kS)), n))
     n = 30 if q else 1000
     for kS in ("G", "K"):
         for f1 in ("V", "E", "F", "I"):
             for f2 in ("V", "E", "F", "I", "E+", "F+", "X"):
                 if kS == "G" and "I" in (f1, f2) and False:
                     continue
-                out.append(Stratum("S in %s/%s-%s" % (kS, f1, f2), "hyp", segment_in_body(kS, f1, f2), n))
-        out.append(Stratum("S in %s/X-X" % kS, "hyp", segment_in_body(kS, "X", "X"), n))
+                out.append(Stratum("S in %s/%s-%s" % (kS, f1, f2), "hyp", gen.with_variant(segment_in_body(kS, f1, f2)), n))
+        out.append(Stratum("S in %s/X-X" % kS, "hyp", gen.with_variant(segment_in_body(kS, "X", "X")), n))
     n = 100 if q else 3000
     for rec in ("face", "parallel-out", "tilted", "through"):
-        out.append(Stratum("G in PL/%s" % rec, "hyp", polygon_in_plane(rec), n))
+        out.append(Stratum("G in PL/%s" % rec, "hyp", gen.with_variant(polygon_in_plane(rec)), n))
     n = 40 if q else 1500
     for rec in ("inside", "face", "face-smaller", "face-shifted", "face-bigger", "section-small", "section-partial", "touch-V", "free"):
-        out.append(Stratum("G in K/%s" % rec, "hyp", polygon_in_polyhedron(rec), n))
+        out.append(Stratum("G in K/%s" % rec, "hyp", gen.with_variant(polygon_in_polyhedron(rec)), n))
     return out
